@@ -85,6 +85,7 @@ type RunSpec struct {
 	Clients   [][]Op   `json:"clients"`
 
 	// sched only
+	Deep      bool    `json:"deep,omitempty"` // built against the instrumented copy (scheduling points inside goldmark)
 	Fresh     bool    `json:"fresh_instance,omitempty"`
 	Cold      bool    `json:"cold_start,omitempty"`
 	Policy    string  `json:"policy,omitempty"`
@@ -209,7 +210,7 @@ type Env struct {
 	p    parser.Parser
 	r    renderer.Renderer
 	docs [][]byte
-	orig [][]byte // pristine copies of docs: what the caller asked to convert
+	orig [][]byte                     // pristine copies of docs: what the caller asked to convert
 	aux  map[string]goldmark.Markdown // other instances created during the run (AuxConvert)
 }
 
